@@ -24,6 +24,7 @@ type verifSpec struct {
 	field                     string
 	cause                     error // sentinel reachable through errors.Is, or nil
 	isSvc                     bool
+	wrapsSvc                  bool // a service error wrapped by user code (fmt.Errorf("...: %w", err))
 }
 
 var verifNames = []string{"error", "a", "b"}
@@ -53,6 +54,10 @@ func verifOperand(i string, kinds int) verifSpec {
 	case 4: // wrapped plain error
 		s.name, s.fault = "error", true
 		s.cause = errors.New("inner" + i)
+	case 5: // service error wrapped by user code
+		s.wrapsSvc = true
+		s.name = verifNames[nondetChoice("name"+i, 3)]
+		s.timeout, s.temporary, s.fault = nondetBool("to"+i), nondetBool("te"+i), nondetBool("fa"+i)
 	}
 	return s
 }
@@ -63,6 +68,9 @@ func verifBuild(s verifSpec) error {
 	switch {
 	case s.isNil:
 		return nil
+	case s.wrapsSvc:
+		inner := &ServiceError{Name: s.name, ID: "id", Message: s.msg, Timeout: s.timeout, Temporary: s.temporary, Fault: s.fault}
+		return &verifWrapErr{msg: "w:" + s.msg, cause: inner}
 	case s.isSvc:
 		e := &ServiceError{Name: s.name, ID: "id", Message: s.msg, Timeout: s.timeout, Temporary: s.temporary, Fault: s.fault, err: s.cause}
 		if s.hasField {
@@ -95,6 +103,11 @@ func verifCheckMerged(tag string, got error, specs []verifSpec, checkHistory boo
 	if len(live) == 1 {
 		// merging with nil changes nothing: the lone operand comes back as it was
 		s := live[0]
+		if s.wrapsSvc {
+			var inner *ServiceError
+			verifAssert(tag+"nil-neutral-wrapped", got.Error() == "w:"+s.msg && errors.As(got, &inner) && inner.Name == s.name && inner.Message == s.msg)
+			return
+		}
 		verifAssert(tag+"nil-neutral-message", got.Error() == s.msg)
 		if s.isSvc {
 			se, ok := got.(*ServiceError)
@@ -161,8 +174,8 @@ func verifMerge3(kinds int, history bool) {
 	verifReach("merge3-done")
 }
 
-// VerifC18_Merge3: all 5 operand kinds, laws except history.
-func VerifC18_Merge3() { verifMerge3(5, false) }
+// VerifC18_Merge3: all 6 operand kinds, laws except history.
+func VerifC18_Merge3() { verifMerge3(6, false) }
 
 // VerifC18_History3: history exactly-once with original name/field/message.
 func VerifC18_History3() { verifMerge3(3, true) }
